@@ -165,10 +165,12 @@ Proof. exact send_donation_le_book. Qed.
 Print Assumptions C18_send_donation_le_book.
 
 (* ---------------------------------------------------------------- round 2 *)
-(* over every history a (pool, account) claim record exists only if that account registered *)
+(* over every history a (pool, account) claim record exists only if that account registered, or an
+   address rotation (x/recovery) moved a record to that account *)
 Theorem C18_claim_records_only_by_register : forall dynguard payout_safe quorum_checked actors U h s k,
   pget k (s_claims (sp_run dynguard payout_safe quorum_checked actors U s h)) <> None ->
-  pget k (s_claims s) <> None \/ exists now a p, In (now, ORegister a p) h /\ k = (p, a).
+  pget k (s_claims s) <> None \/ (exists now a p, In (now, ORegister a p) h /\ k = (p, a))
+  \/ (exists now a b, In (now, ORotate a (snd k) b) h).
 Proof. exact claim_records_only_by_register. Qed.
 Print Assumptions C18_claim_records_only_by_register.
 
@@ -179,17 +181,17 @@ Theorem C18_model_claim_passes_checker : forall actors U S now p a s s' P,
   sp_claim actors now p a s = Ok s' -> zget p (s_pools s) = Some P ->
   zget p (ss_terms S) = Some (p_terms P) ->
   (forall d, In d U -> fget p (ss_book S) d = p_bal P d) ->
-  pget (p, a) (ss_last S) = pget (p, a) (s_claims s) ->
+  pget (p, a) (ss_last S) = pget (p, a) (s_claims s) -> ss_actors S = actors ->
   NoDup (map fst (t_rates (p_terms P))) -> (forall e, In e (t_rates (p_terms P)) -> 0 <= snd e) ->
   (forall w, In w (granted_weights actors (p_terms P) a) -> 0 <= w) ->
   (forall d, 0 <= p_bal P d) -> a <> MODULE ->
-  check_payment actors U S now p a (csub (s_bank s' a) (s_bank s a)) = [].
+  check_payment U S now p a (csub (s_bank s' a) (s_bank s a)) = [].
 Proof. exact model_claim_passes_checker. Qed.
 Print Assumptions C18_model_claim_passes_checker.
 
 (* over every history of messages, proposals (send donation, remove in either variant) and seeded
    donations: each contributor's bond record equals the ghost sum -- set by create, increased by
-   contribute, cleared by withdraw and for every record a removal deleted *)
+   contribute, cleared by withdraw and for every record a removal deleted, renamed by an address rotation *)
 Theorem C18_bonds_are_sum_of_contributions : forall ratomic actors U h sg,
   bonds_inv sg -> bonds_inv (gs_run ratomic actors U sg h).
 Proof. exact bonds_are_sum_of_contributions. Qed.
@@ -200,6 +202,21 @@ Print Assumptions C18_bonds_are_sum_of_contributions.
 Theorem C18_removal_all_or_nothing : forall U c s s', co_remove true U c s = Ok s' -> cs_colls s' = zdel c (cs_colls s).
 Proof. exact removal_all_or_nothing. Qed.
 Print Assumptions C18_removal_all_or_nothing.
+
+(* ---------------------------------------------------------------- round 5: address rotation *)
+(* the two history theorems with the gov actors (roles) following every accepted address rotation *)
+Theorem C18_books_le_module_with_rotations : forall dynguard payout_safe quorum_checked order U h w,
+  Forall (fun e => op_wf (snd e)) h -> books_inv (snd w) ->
+  books_inv (snd (spw_run dynguard payout_safe quorum_checked order U w h)).
+Proof. exact books_le_module_with_rotations. Qed.
+Print Assumptions C18_books_le_module_with_rotations.
+
+Theorem C18_funds_leave_only_by_payout_with_rotations : forall dynguard payout_safe quorum_checked order U h w d,
+  Forall (fun e => op_wf (snd e)) h ->
+  s_bank (snd (spw_run dynguard payout_safe quorum_checked order U w h)) MODULE d < s_bank (snd w) MODULE d ->
+  exists e, In e h /\ is_payout (snd e) = true.
+Proof. exact funds_leave_only_by_payout_with_rotations. Qed.
+Print Assumptions C18_funds_leave_only_by_payout_with_rotations.
 
 (* ---------------------------------------------------------------- non-vacuity *)
 Definition ex_terms : terms := mkTerms 100 0 1000 [(1, 2500000000000000000)] [] [(7, 500000000000000000)] false 0.
